@@ -303,6 +303,9 @@ def run(ctx):
         os.chmod(noshebang, 0o755)
         badutf = os.path.join(d, 'bad.smt2')
         open(badutf, 'wb').write(b'(assert bug)\n(assert |\xff|)\n')
+        os.mkdir(os.path.join(d, 'real'))
+        shutil.copy(good, os.path.join(d, 'real', 'in.smt2'))
+        os.symlink(os.path.join(d, 'real'), os.path.join(d, 'link'))
         cases += [
             ('command output is not UTF-8', [good, out, nonutf], mkinv()),
             ('command has no valid executable format', [good, out, garbage], mkinv(cmd_runs=0)),
@@ -337,6 +340,7 @@ def run(ctx):
             ('output file name close to NAME_MAX', [good, os.path.join(d, 'o' * 245 + '.smt2')] + cmd, mkinv(out_ok=0)),
             ('output path with a trailing slash', [good, os.path.join(d, 'newout') + '/'] + cmd, mkinv(out_ok=0)),
             ('output file below /proc', [good, '/proc/out.smt2'] + cmd, mkinv(out_ok=0)),
+            ('output file is the input file, reached through a symbolic link to its directory', [os.path.join(d, 'real', 'in.smt2'), os.path.join(d, 'link', 'in.smt2')] + cmd, mkinv(out_is_in=1)),
             ('several usage errors at once', ['-j', '0', '-c', noexec, good, good, noexec], mkinv(out_is_in=1, cmd_exec=0, has_cc=1, cc_exec=0, jobs_ok=0)),
         ]
         if shutil.which('capsh'):
@@ -372,6 +376,9 @@ def run(ctx):
                 diag = [ln for ln in (so + se).split('\n') if ln.strip() and ('Error' in ln or 'ERROR' in ln)]
                 if lines == 1 and len(diag) != 1:
                     problems.append(f'expected one diagnostic line, got {len(diag)}: {diag[:3]}')
+                if 'symbolic link' in name and open(os.path.join(d, 'real', 'in.smt2')).read() != open(good).read():
+                    problems.append('the input file was overwritten')
+                    shutil.copy(good, os.path.join(d, 'real', 'in.smt2'))
                 if problems:
                     if rc != status and not ('Traceback' in se + so):
                         ctx.disagree('run_cli/exit_status', input=name, impl=f'status {rc}', model=f'status {status}')
